@@ -13,6 +13,7 @@
   Sel     := * | S n i…
   Cond    := cmp op E E | and C C | or C C | not C | isnull neg E | btw neg E E E | in neg E n v… | truth E
   E       := c side idx | l v
+  A last token `#<hex>` (the SQL text that was run) is ignored.
   answer: `<width> <row>|<row>|…` (cells `Proto.showVal` of the raw value, joined by `,`), `<width> -` when
   there is no row, `ERR` when the recursion limit is exceeded.
 -/
@@ -263,6 +264,8 @@ def showRes (res : Nat × List Row) : String :=
 
 def c03 (cmd : String) (args : List String) : String :=
   let bad := "bad-op"
+  -- a trailing `#<hex of the SQL text>` token is a comment for the human reader of a failing case
+  let args := args.filter (fun a => !a.startsWith "#")
   match cmd with
   | "q" =>
     (do
